@@ -93,6 +93,9 @@ theorem refreshV_preserves' (env : Env) (v : View) (reported : List RHost) (P : 
 def FreshConn (env : Env) (r0 : Ring.Ring) (reported : List RHost) (s : RHost) : Prop :=
   (∀ y ∈ r0.allHosts, cAddr y ≠ cAddr s) ∧ (∀ y ∈ reported, env.filter y = false → y ≠ s → cAddr y ≠ cAddr s)
 
+instance (env : Env) (r0 : Ring.Ring) (reported : List RHost) (s : RHost) : Decidable (FreshConn env r0 reported s) := by
+  unfold FreshConn; infer_instance
+
 structure NewPol (env : Env) (r0 : Ring.Ring) (reported : List RHost) (w : View) : Prop where
   prov : ∀ y, y ∈ w.pol.loc ∨ y ∈ w.pol.rem → y ∈ r0.allHosts ∨ (y ∈ reported ∧ env.filter y = false)
   inpol : ∀ s, lookup w.ring.byId s.id = some s → s.id ∉ keys r0.byId → FreshConn env r0 reported s →
